@@ -731,7 +731,7 @@ def shrink(binary, case, key):
     return cur
 
 
-def model_eval_chunked(values, chunk=40, workers=8):
+def model_eval_chunked(values, chunk=12, workers=12):
     """vlib.model_eval in many short-lived runner processes: the extracted runner gets superlinearly slower the more
     (large) values one process has handled (232 sweep values: 92 s in one process, 2.4 s in 8 interleaved chunks)"""
     from concurrent.futures import ThreadPoolExecutor
